@@ -1,5 +1,6 @@
 """C04 - merklized scripts: only committed branches run, and every committed branch can."""
 import hashlib, random, re, sys
+from ..par import SafePool
 from ..common import Report, REPO
 from .. import scncheck
 from ..gen.progs import push, op
@@ -223,7 +224,7 @@ def main(tier: str, seed: int) -> int:
     scncheck.mc(rep, 'Merkle', 'builders', INV, run_mc, consts={'MaxLeaves': 12 if quick else 24}, workers=4)
     import multiprocessing as mp
     n = 6000 if quick else 40000
-    with mp.get_context('fork').Pool(14) as pool:
+    with SafePool(14) as pool:
         cases = [c for ch in pool.map(record_random, [(seed * 47 + i, n // 28) for i in range(28)]) for c in ch]
     for cse in cases:       # leftover is only defined when a leaf ran; align with the specification's count otherwise
         pass
